@@ -3,7 +3,8 @@ C01 — SBC always returns a well-formed, disjoint, connected set of clusters.
 The theorems hold for EVERY output of the periodic finder, every "near" relation (merge radius) and every partition
 into bonded components (DBSCAN contract D1); no bound on the number of atoms, clusters or iterations.
 -/
-import MatidProofs.SBCProofs
+import MatidProofs.SBCPipeline
+import MatidGen.SbcRule
 
 namespace Matid.Props.C01
 open Matid.SBC
@@ -60,6 +61,56 @@ theorem driver_indices_in_range (numbers : List Nat) (remaining : List Nat) (f :
     (h : (driverStep numbers remaining f).2 = some c) :
     (∀ x ∈ c.idx, x = f.seed ∨ ∃ b, f.basis = some b ∧ x ∈ b) ∧ f.seed ∈ c.idx ∧ Consistent numbers c ∧ c.merged = false :=
   driverStep_cluster numbers remaining f c h
+
+
+/-! ### the whole pipeline, in the order the source applies it -/
+
+/-- the order of the three post-processing stages in `get_clusters` (translated from the AST on every run) is
+merge → localize → clean, each stage consumes the previous result and the last result is returned -/
+theorem pipeline_order_ok :
+    MatidGen.SbcRule.pipelineOrder.mapM Stage.ofString? = some [.merge, .localize, .clean] ∧
+    MatidGen.SbcRule.returnsClusters = true := by decide
+
+/-- the entry of `get_clusters` as translated: a cell vector is tested by its row, a zero vector raises ValueError along a
+periodic direction and is completed along a non-periodic one, the box is enlarged when an atom lies outside [0,1] along a
+non-periodic axis, and the loop removes the tested atoms and the new cluster's atoms from the search -/
+theorem entry_rules_ok :
+    MatidGen.SbcRule.zeroTestIsRow = true ∧ MatidGen.SbcRule.zeroPbcRaises = true ∧ MatidGen.SbcRule.scaleCond = true ∧
+    MatidGen.SbcRule.loopRemovesTested = true := by decide
+
+/-- no state survives a call: class SBC has no constructor, the only attribute it assigns is the random generator (seeded
+at entry of every call), and `PeriodicFinder.get_region` assigns its attributes unconditionally at the start of each call —
+the syntactic basis of "a deterministic function of (structure, parameters, seed)" -/
+theorem sbc_keeps_no_state :
+    MatidGen.SbcRule.sbcHasInit = false ∧ MatidGen.SbcRule.sbcSelfFields = ["rng"] ∧ MatidGen.SbcRule.finderCondAssign = [] := by
+  decide
+
+/-- **well-formed output of the whole pipeline** merge → localize → clean, for every cluster list the search loop can produce,
+every threshold, every "near" relation, every partition into bonded components (contract `EnvOk`): index lists non-empty,
+in range, every atom in at most one cluster, species-consistent, each cluster a largest bonded component of the index set
+it was cut from. -/
+theorem pipeline_wellformed (e : Env) (he : EnvOk e) (cs0 : List Clu)
+    (h0 : ∀ c ∈ cs0, Consistent e.numbers c ∧ ∀ x ∈ c.idx, x < e.numbers.length) :
+    let out := pipeline e [.merge, .localize, .clean] cs0
+    (∀ c ∈ out, c.idx ≠ []) ∧
+    (∀ c ∈ out, ∀ x ∈ c.idx, x < e.numbers.length) ∧
+    (∀ j, memCount (out.map (·.idx)) j ≤ 1) ∧
+    (∀ c ∈ out, Consistent e.numbers c) ∧
+    (∀ c ∈ out, ∃ S, c.idx ∈ e.comps S ∧ ∀ c' ∈ e.comps S, c'.length ≤ c.idx.length) :=
+  Matid.SBC.pipeline_wellformed e he cs0 h0
+
+/-- the order matters: with cleaning BEFORE localisation a returned cluster can be disconnected.  Chain 0–1–2 plus atom 3;
+regions {0,1,2} and {1,3}; atom 1 is nearer to the second region, so localisation takes the bridge out of the first. -/
+def exEnv : Env :=
+  { numbers := [6, 6, 6, 6], thr := 1, near := fun _ j => j == 3,
+    comps := fun S => if S == [0, 2] then [[0], [2]] else if S.isEmpty then [] else [S],
+    pick := fun l => (cleanOne l).head? }
+def exClusters : List Clu :=
+  [{ idx := [0, 1, 2], species := [6], rsize := 3, rid := 1, merged := false },
+   { idx := [1, 3], species := [6], rsize := 2, rid := 2, merged := false }]
+example : (pipeline exEnv [.merge, .clean, .localize] exClusters).map (·.idx) = [[0, 2], [1, 3]] ∧
+    exEnv.comps [0, 2] = [[0], [2]] := by decide +kernel
+example : (pipeline exEnv [.merge, .localize, .clean] exClusters).map (·.idx) = [[0], [1, 3]] := by decide +kernel
 
 /-! non-vacuity -/
 example : localize (fun _ _ => true) 4 [[0, 1, 2], [1, 2, 3]] = [[0, 1, 2], [3]] := by decide
